@@ -4,7 +4,8 @@ Space: ALL labelled graphs (valid or not) over n nodes, every subset of the n*n 
 node pairs (self-loops included) up to m links, every way of sharing link objects among
 the edges (restricted-growth strings), every per-node origin in {none, new of each kind,
 the same object as an earlier node} and destination likewise.  Each graph is built on the
-real `Network` through two different API histories and `is_valid` is compared with the
+real `Network` through three different API histories (the third interleaves is_valid() calls with the
+construction and uses add_path) and `is_valid` is compared with the
 independent nine-condition predicate of `graphmodel`.
 """
 from __future__ import annotations
@@ -98,6 +99,30 @@ def build(U, n, edges, links, origins, dests, history):
                 net.add_origin(o[origins[i]], nodes[i])
             if dests[i] is not None:
                 net.add_destination(o[dests[i]], nodes[i])
+    elif history == 3:
+        # validate - mutate - validate: is_valid() after every construction call (its reads memoise lookups),
+        # links and attachments added through add_path wherever a path call can express them
+        net.is_valid()
+        done_o, done_d = set(), set()
+        for (u, v), l in zip(edges, links):
+            wo = origins[u] is not None and u not in done_o
+            wd = dests[v] is not None and v not in done_d
+            net.add_path((nodes[u], o[f"L{l}"], nodes[v]), origin=o[origins[u]] if wo else None,
+                         destination=o[dests[v]] if wd else None)
+            if wo:
+                done_o.add(u)
+            if wd:
+                done_d.add(v)
+            net.is_valid()
+        for i in range(n):
+            if origins[i] is not None and i not in done_o:
+                net.add_origin(o[origins[i]], nodes[i])
+                net.is_valid()
+            if dests[i] is not None and i not in done_d:
+                net.add_destination(o[dests[i]], nodes[i])
+                net.is_valid()
+            if origins[i] is None and dests[i] is None:
+                net.add_node(nodes[i])
     else:
         for i in reversed(range(n)):
             if dests[i] is not None:
@@ -122,7 +147,7 @@ def check_one(U, n, edges, links, origins, dests, st: Stats, record=True):
     bad = violated_conditions(exp, U.is_ramp)
     valid = not bad
     problems = []
-    for history in (1, 2):
+    for history in (1, 2, 3):
         st.inc("transitions", n + len(edges) + 2)
         try:
             net = build(U, n, edges, links, origins, dests, history)
